@@ -345,6 +345,42 @@ def ownership_clause(model, rep, funcs):
     rep.floor("S5", 7, "(stores to _pos/_rotator/_features)")
 
 
+def to_dataframe_guard_obligation(rep, f, clause="3 guards"):
+    """Feature names that collide with the coordinate columns are rejected before the table is assembled (with_columns replaces a same-named column: a guard placed
+    after the merge can never fire and the feature silently overwrites a coordinate)."""
+    rep.instance("GUARD", f.loc())
+    cfg = CFG(f.node)
+    builds = [n for n in cfg.nodes if n.kind == "stmt" and any(isinstance(c, ast.Call) and (dotted(c.func) or "").endswith("DataFrame") for c in ast.walk(n.node))]
+
+    MGD = Matcher(f)
+
+    def is_dup_guard(c):
+        # the test is (a name bound to) the intersection of the feature names with _CSV_COLUMNS, and the true branch raises
+        if c.kind != "test":
+            return False
+        t = c.node.test
+        neg = False
+        while isinstance(t, ast.UnaryOp) and isinstance(t.op, ast.Not):
+            t, neg = t.operand, not neg
+        if isinstance(t, ast.NamedExpr):
+            t = t.value
+        tx = norm_src(MGD.expr(t))
+        if "intersection(_CSV_COLUMNS)" not in tx and "& set(_CSV_COLUMNS)" not in tx:
+            return False
+        branch = c.node.orelse if neg else c.node.body
+        rest = []
+        if neg and not c.node.orelse:
+            # `if not dup: return` followed by the raise
+            body_ = f.node.body
+            rest = body_[body_.index(c.node) + 1:] if c.node in body_ else []
+            return bool(rest) and isinstance(rest[0], ast.Raise)
+        return any(isinstance(x, ast.Raise) for st in branch for x in ast.walk(st))
+
+    ok = bool(builds) and all(cfg.must_pass_through(n, is_dup_guard) for n in builds)
+    rep.ob("GUARD", f.anchor, "feature names colliding with the coordinate columns are rejected before the table is built", ok, "", node=f.node, fn=f,
+           clause=clause, stmt="def to_dataframe guard")
+
+
 def guards_clause(model, rep, funcs):
     # length check dominates the store in the features setter
     f = funcs.get(MC + "features@setter")
@@ -400,37 +436,7 @@ def guards_clause(model, rep, funcs):
                ok, "", node=f.node, fn=f, clause="3 guards", stmt="def __init__ guards")
     f = funcs.get(MC + "to_dataframe")
     if f is not None:
-        rep.instance("GUARD", f.loc())
-        cfg = CFG(f.node)
-        builds = [n for n in cfg.nodes if n.kind == "stmt" and any(isinstance(c, ast.Call) and (dotted(c.func) or "").endswith("DataFrame") for c in ast.walk(n.node))]
-
-        MGD = Matcher(f)
-
-        def is_dup_guard(c):
-            # the test is (a name bound to) the intersection of the feature names with _CSV_COLUMNS, and the true branch raises
-            if c.kind != "test":
-                return False
-            t = c.node.test
-            neg = False
-            while isinstance(t, ast.UnaryOp) and isinstance(t.op, ast.Not):
-                t, neg = t.operand, not neg
-            if isinstance(t, ast.NamedExpr):
-                t = t.value
-            tx = norm_src(MGD.expr(t))
-            if "intersection(_CSV_COLUMNS)" not in tx and "& set(_CSV_COLUMNS)" not in tx:
-                return False
-            branch = c.node.orelse if neg else c.node.body
-            rest = []
-            if neg and not c.node.orelse:
-                # `if not dup: return` followed by the raise
-                body_ = f.node.body
-                rest = body_[body_.index(c.node) + 1:] if c.node in body_ else []
-                return bool(rest) and isinstance(rest[0], ast.Raise)
-            return any(isinstance(x, ast.Raise) for st in branch for x in ast.walk(st))
-
-        ok = bool(builds) and all(cfg.must_pass_through(n, is_dup_guard) for n in builds)
-        rep.ob("GUARD", f.anchor, "feature names colliding with the coordinate columns are rejected before the table is built", ok, "", node=f.node, fn=f,
-               clause="3 guards", stmt="def to_dataframe guard")
+        to_dataframe_guard_obligation(rep, f)
     f = funcs.get(MC + "from_axes")
     if f is not None:
         rep.instance("GUARD", f.loc())
